@@ -33,3 +33,47 @@ Print Assumptions C13_delete_meaning.
 Theorem C13_improve_meaning : stmt_improve_meaning.
 Proof. exact improve_meaning. Qed.
 Print Assumptions C13_improve_meaning.
+
+(** "... and nothing else", on the functional model of the modifications (Schedule.v, compared line by line with the
+    implementation): every tour, type entry and formation a modification does not document is the same before and
+    after, for ALL schedule records and arguments (SchedFrameStmts.v spells out each statement). *)
+From RS Require Import Transition Schedule SchedInv SchedFrameStmts SchedFrameFacts.
+Theorem C13_model_frame_spawn : forall nw, stmt_frame_spawn nw.
+Proof. exact frame_spawn. Qed.
+Print Assumptions C13_model_frame_spawn.
+Theorem C13_model_frame_delete : forall nw, stmt_frame_delete nw.
+Proof. exact frame_delete. Qed.
+Print Assumptions C13_model_frame_delete.
+Theorem C13_model_frame_add_path : forall nw, stmt_frame_add_path nw.
+Proof. exact frame_add_path. Qed.
+Print Assumptions C13_model_frame_add_path.
+Theorem C13_model_frame_remove_segment : forall nw, stmt_frame_remove_segment nw.
+Proof. exact frame_remove_segment. Qed.
+Print Assumptions C13_model_frame_remove_segment.
+Theorem C13_model_frame_fit : forall nw, stmt_frame_fit nw.
+Proof. exact frame_fit. Qed.
+Print Assumptions C13_model_frame_fit.
+Theorem C13_model_frame_override : forall nw, stmt_frame_override nw.
+Proof. exact frame_override. Qed.
+Print Assumptions C13_model_frame_override.
+Theorem C13_model_frame_recompute : forall nw, stmt_frame_recompute nw.
+Proof. exact frame_recompute. Qed.
+Print Assumptions C13_model_frame_recompute.
+(** depot-only operations change no activity — for every reachable schedule; for arbitrary schedule RECORDS the
+    statement is false (a tour filed under the dummies of an id listed as vehicle), which no history produces *)
+Theorem C13_model_improve_changes_no_activity :
+  forall nw s vs s', reachable nw s -> improve_depots nw s vs = Ok s' -> activities_same s s'.
+Proof. exact frame_improve_reachable. Qed.
+Print Assumptions C13_model_improve_changes_no_activity.
+Theorem C13_model_greedy_changes_no_activity :
+  forall nw s s', reachable nw s -> reassign_end_depots_greedily nw s = Ok s' -> activities_same s s'.
+Proof. exact frame_greedy_reachable. Qed.
+Print Assumptions C13_model_greedy_changes_no_activity.
+Theorem C13_model_consistent_changes_no_activity :
+  forall nw s s', reachable nw s -> reassign_end_depots_consistent nw s = Ok s' -> activities_same s s'.
+Proof. exact frame_consistent_reachable. Qed.
+Print Assumptions C13_model_consistent_changes_no_activity.
+Theorem C13_model_depot_only_unrestricted_refuted :
+  ~ (forall nw, stmt_frame_improve nw) /\ ~ (forall nw, stmt_frame_greedy nw) /\ ~ (forall nw, stmt_frame_consistent nw).
+Proof. exact (conj frame_improve_refuted (conj frame_greedy_refuted frame_consistent_refuted)). Qed.
+Print Assumptions C13_model_depot_only_unrestricted_refuted.
